@@ -111,6 +111,18 @@ def other_tables_canon(font):
             else:
                 g[name] = ("empty",)
         out["glyf"] = tuple(sorted(g.items()))
+    for tag in ("CFF ", "CFF2"):
+        if tag in font:
+            # charstrings are stored by glyph id; what a name draws is what must survive
+            from fontTools.pens.recordingPen import RecordingPen
+
+            gs = font.getGlyphSet()
+            g = {}
+            for name in font.getGlyphOrder():
+                pen = RecordingPen()
+                gs[name].draw(pen)
+                g[name] = tuple((op, tuple(tuple(p) if p is not None else None for p in args)) for op, args in pen.value)
+            out[tag] = tuple(sorted(g.items()))
     if "COLR" in font:
         colr = font["COLR"]
         if colr.version == 0:
